@@ -95,7 +95,9 @@ fn c11_quat_metric(p: Quaternion<R>, q: Quaternion<R>, m: R) {
     let mg = p.magnitude();
     vassert_eq("magnitude^2", mg * mg, qnorm2(p));
     vassert("magnitude>=0", mg >= R(0.0));
-    let d = p - q;
+    // the difference written out component by component: the oracle must not go through the library's own `-`
+    let d = Quaternion::from_sv(p.s - q.s, v3(p.v.x - q.v.x, p.v.y - q.v.y, p.v.z - q.v.z));
+    vassert_eq("p - q", p - q, d);
     vassert_eq("distance2", p.distance2(q), qnorm2(d));
     vassert_eq("distance symmetric", p.distance(q), q.distance(p));
     vassert_eq("distance=|p-q|", p.distance(q), (p - q).magnitude());
